@@ -56,6 +56,26 @@ Theorem C20_closure_is_least_fixpoint : forall (F : @facts gid) fuel R,
   closure gid_eqb fuel F [] = Some R -> forall e, In e R <-> derivable F [] e.
 Proof. intros F fuel R. exact (closure_spec gid_eqb gid_eqb_spec F [] fuel R). Qed.
 
+(* An evaluation always terminates: fuel above |nodes|^2 suffices (so the "= Some R" premises of the
+   theorems here are satisfiable for every fact set, and R is the least fixpoint). *)
+Theorem C20_closure_terminates : forall (F : @facts gid) V fuel,
+  incl (universe F) V -> List.length (list_prod V V) < fuel ->
+  exists R, closure gid_eqb fuel F [] = Some R /\ forall e, In e R <-> derivable F [] e.
+Proof.
+  intros F V fuel HV Hlt.
+  destruct (closure_terminates gid_eqb gid_eqb_spec F [] V fuel HV (NoDup_nil _) (incl_nil_l _) Hlt) as [R [HR _]].
+  exists R. split; [exact HR|]. exact (closure_spec gid_eqb gid_eqb_spec F [] fuel R HR).
+Qed.
+
+Theorem C20_crate_loop_terminates : forall (cs : list (@facts gid)) V fuel,
+  (forall c, In c cs -> incl (universe c) V) -> List.length (list_prod V V) < fuel ->
+  exists R, run_crates gid_eqb fuel cs = Some R.
+Proof.
+  intros cs V fuel Hcs Hlt. unfold run_crates.
+  apply (run_crates_terminates gid_eqb gid_eqb_spec V fuel Hlt cs); auto using NoDup_nil, incl_nil_l.
+  intros x Hx. cbn in Hx. contradiction.
+Qed.
+
 (* ... hence the same set for every order in which items (facts) are visited ... *)
 Theorem C20_closure_order_free : forall (F G : @facts gid) fuel fuel' R R',
   facts_equiv F G -> closure gid_eqb fuel F [] = Some R -> closure gid_eqb fuel' G [] = Some R' ->
@@ -98,6 +118,17 @@ Proof. exact format_closed. Qed.
 Theorem C20_closed_with_effect : forall es, resolved es -> defines es "Effect" -> closedb (format es) = true.
 Proof. exact format_closed_full. Qed.
 
+(* The same for the whole pipeline (Filter closure, then Formatter), from hypotheses about the
+   description itself: every type name used by a REACHED field is the Range of a direct Range field, or
+   the name() of a local type the field points to (the edge(field, type) rule follows it), or - the
+   remote-crate hypothesis - the name() of a root of one of the visited crates; and that type has
+   something to hang a container on (any struct, after fix 8ae740d; an enum with a present variant). *)
+Theorem C20_closed : forall d fuel G,
+  tbl_fun (d_items d) -> fields_in_table d ->
+  closure gid_eqb fuel (gfacts d) [] = Some G -> followed d G ->
+  closed_mod_requestb (format (edges_of (d_items d) G)) = true.
+Proof. exact pipeline_closed. Qed.
+
 (* The side condition is needed.  (1) known class request_without_effect: with no Effect type the fixed
    Request container dangles - already for the empty edge relation. *)
 Theorem C20_request_without_effect_refuted :
@@ -115,6 +146,19 @@ Theorem C20_unit_struct_field_defined :
   pipeline C20_w_dump = Some [("Event", CStruct [("marker", FTypeName "Marker")]); ("Marker", CUnitStruct); ("Request", request_container)]
   /\ option_map closed_mod_requestb (pipeline C20_w_dump) = Some true.
 Proof. vm_compute. split; reflexivity. Qed.
+
+(* non-vacuity of C20_closed: this description satisfies its hypotheses *)
+Example C20_closed_nonvacuous : exists G,
+  closure gid_eqb (fuel_for C20_w_dump) (gfacts C20_w_dump) [] = Some G
+  /\ tbl_fun (d_items C20_w_dump) /\ fields_in_table C20_w_dump /\ followed C20_w_dump G.
+Proof.
+  eexists. split; [vm_compute; reflexivity|]. split; [|split].
+  - intros x y Hx Hy. cbn in Hx, Hy.
+    destruct Hx as [<-|[<-|[<-|[]]]]; destruct Hy as [<-|[<-|[<-|[]]]]; cbn; intros H; try reflexivity; discriminate.
+  - intros e [<-|[]]. cbn. auto.
+  - intros f s Hf _ Hs. cbn in Hf. destruct Hf as [<-|[<-|[<-|[]]]]; cbn in Hs; try contradiction.
+    destruct Hs as [<-|[]]. right. left. exists C20_w_mk. cbn. repeat split; auto. left. reflexivity.
+Qed.
 
 (* known class childless_enum_undefined: the same with an enum that has no (unskipped) variant - the
    container rule for enums needs a variant edge. *)
